@@ -24,7 +24,8 @@ META = {
                     "bad values are blatant ones (letters in numbers, malformed dates): near-misses are C19's subject",
                     "empty groups, trailer fields other than 10 and field order at the top level are not judged"],
 }
-REQUIRED_ORACLES = ["valid-accepted", "fault-rejected", "declaration-order"]
+REQUIRED_ORACLES = ["valid-accepted", "fault-rejected", "declaration-order", "history-independence"]
+REQUIRED_COUNTERS = ["zero_seqnum_probes_after_an_open_ended_resendrequest", "verdicts_repeated_on_a_used_schema"]
 NSHARDS = 16
 DICTS = ["/tests/FIX44.xml", "/tests/TT-FIX44.xml"]
 NINST = {"quick": 3, "thorough": 16}
@@ -378,6 +379,34 @@ def run_shard(spec, acc):
                 base.append(verdict(schema, to_message(dic, mt, inst, False)))
             except Exception:
                 base.append("unbuildable")
+        # the verdict on a message is a function of the message and the dictionary, not of what this schema object validated before:
+        # (a) the whole battery again, in reverse order, on the same object; (b) the one value-level exception the validator has
+        # (EndSeqNo=0 in an open-ended ResendRequest) must stay EndSeqNo's: after it was validated, zero in other SeqNum fields is refused
+        from asyncfix import FIXMessage
+        acc.oracle("history-independence")
+        for (mt, inst), b in reversed(list(zip(battery, base))):
+            if b == "unbuildable":
+                continue
+            v = verdict(schema, to_message(dic, mt, inst, False))
+            acc.add("verdicts_repeated_on_a_used_schema")
+            if v != b:
+                acc.violation("verdict-depends-on-validation-history", f"{dn} {dic.messages[mt]['name']}: {b} the first time, {v} when validated again later on the same schema object",
+                              {"dict": dn, "msgtype": mt, "instance": show_inst(inst)}, f"hist:{dn}:{shard}")
+                break
+        if verdict(schema, FIXMessage("2", {7: 1, 16: 0})) == "accept":
+            for label, mt_, fields, tag in (("BeginSeqNo", "2", {7: 3, 16: 5}, 7), ("NewSeqNo", "4", {36: 7}, 36), ("NewSeqNo in a gap fill", "4", {123: "Y", 36: 7}, 36),
+                                            ("RefSeqNum", "3", {45: 4}, 45)):
+                if verdict(schema, FIXMessage(mt_, dict(fields))) != "accept":
+                    acc.add("zero_seqnum_probe_not_applicable")
+                    continue
+                acc.oracle("history-independence")
+                acc.add("zero_seqnum_probes_after_an_open_ended_resendrequest")
+                v = verdict(schema, FIXMessage(mt_, {**fields, tag: 0}))
+                if v != "reject":
+                    acc.violation("verdict-depends-on-validation-history:zero-seqnum-after-endseqno-zero", f"{dn}: {label}=0 -> {v} after ResendRequest(EndSeqNo=0) was validated on the same schema object",
+                                  {"dict": dn, "msgtype": mt_, "tag": tag}, f"hist0:{dn}:{label}")
+        else:
+            acc.add("open_ended_resendrequest_not_accepted_by_this_dictionary")
         for p in range(spec["nperm"]):
             if p % ns != shard and spec["nperm"] >= ns:
                 continue
